@@ -1,0 +1,11 @@
+//go:build verif
+
+// Contracts for package bus (comment-only; read by /verif/govc).
+
+package bus
+
+//@ func (*socket).SendMsg
+//@   before call:SendMsg#1 assert len(m.Header) == 0
+//@
+//@ func (*socket).RecvMsg
+//@   ensures result0 != nil ==> len(result0.Header) == 0
